@@ -79,7 +79,7 @@ class StatusObserver:
 
 def h_submit(shapes=("chain3",), bss=(1, 2), maxns=(None, 1), tas=(True,), time_based=False, G=1, fails=True,
              cancel_flags=True, lost=False, local=False, procs=None, max_steps=60, max_recoveries=None, rcs=(0, 1),
-             hooks=False, est_choices=(1, 5), wall="0:10:00", dry_run=False):
+             hooks=False, est_choices=(1, 5), wall="0:10:00", dry_run=False, hook_rcs=(0,)):
     def harness(ex):
         from world.world import Hang
 
@@ -122,10 +122,24 @@ def h_submit(shapes=("chain3",), bss=(1, 2), maxns=(None, 1), tas=(True,), time_
                 j["estimated_run_minutes"] = ests[i]
             jobs.append(j)
         cfg_kw = {}
+        hook_set = {}
         if hooks:
             for h in ("setup_command", "teardown_command", "node_setup_command", "node_teardown_command"):
-                if ex.flag("hook_" + h):
-                    cfg_kw[h] = "hook-" + h.replace("_command", "")
+                hook_set[h] = ex.flag("hook_" + h)
+                if hook_set[h]:
+                    cfg_kw[h] = "hook-" + h.replace("_command", "") + " --arg 'a b'"
+            if hook_rcs != (0,):
+                hook_rc_mem = {}
+
+                def hook_rc(w_, argv):  # teardown-type hooks may fail; setup-type failures abort by design (check_run_command)
+                    if "teardown" not in argv[0]:
+                        return 0
+                    k = "%s_%d" % (argv[0], len([e for e in w_.events("hook") if e["argv"][0] == argv[0]]))
+                    if k not in hook_rc_mem:
+                        hook_rc_mem[k] = hook_rcs[ex.choice("hookrc_" + k, len(hook_rcs))]
+                    return hook_rc_mem[k]
+
+                w.hook_rc = hook_rc
         cfg = write_config(w, jobs, groups, **cfg_kw)
         out = os.path.join(w.root, "out")
         obs = StatusObserver(ex, out, N)
@@ -387,8 +401,55 @@ def h_submit(shapes=("chain3",), bss=(1, 2), maxns=(None, 1), tas=(True,), time_
             ex.check(obs.complete_seen <= 1, "C05: completion happened more than once", times=obs.complete_seen)
             ex.check(r1.rc == 0 and r2.rc == 0, "C05: try-submit-jobs/show-status on a complete submission failed",
                      rc=[r1.rc, r2.rc], err=("".join(r1.err) + "".join(r2.err))[-300:])
+        if hooks:
+            hk = w.events("hook")
+            by = {}
+            for e in hk:
+                by.setdefault(e["argv"][0], []).append(e)
+                ex.check(e["argv"][1:] == ["--arg", "a b"], "C16: lifecycle command not run as configured", argv=e["argv"])
+                ex.check(e["env"].get("JADE_RUNTIME_OUTPUT") == out, "C16: JADE_RUNTIME_OUTPUT not set for a lifecycle command",
+                         hook=e["argv"][0], env=e["env"])
+            first_sb = min([s_["seq"] for s_ in sb_all] + [10 ** 9])
+            first_launch = min([l["seq"] for l in launches] + [10 ** 9])
+            n_setup = len(by.get("hook-setup", []))
+            ex.check(n_setup == (1 if hook_set["setup_command"] else 0), "C16: setup command did not run exactly once", times=n_setup)
+            for e in by.get("hook-setup", []):
+                ex.check(e["seq"] < first_sb and e["seq"] < first_launch and e["host"] == "login1",
+                         "C16: setup command did not run on the submitting host before the first batch", host=e["host"])
+            n_td = len(by.get("hook-teardown", []))
+            ex.check(n_td == (1 if hook_set["teardown_command"] else 0), "C16: teardown command did not run exactly once per completion",
+                     times=n_td)
+            for e in by.get("hook-teardown", []):
+                ex.check(set(nm) <= set(e["results_on_disk"]), "C16: teardown command ran before every job had an outcome",
+                         have=sorted(set(e["results_on_disk"])))
+                if not local:
+                    ex.check(obs.complete_seq is not None and e["seq"] < obs.complete_seq,
+                             "C16: teardown command ran after the completion flag was set")
+            groups_by_batch = {}
+            batches_run = sorted({l["batch"] for l in launches}, key=str)
+            for b_ in batches_run:
+                ls = [l for l in launches if l["batch"] == b_]
+                exits = [e for e in w.events("exit") if e["job"] in {l["job"] for l in ls}]
+                ns = [e for e in by.get("hook-node_setup", []) if e["batch"] == b_]
+                nt = [e for e in by.get("hook-node_teardown", []) if e["batch"] == b_]
+                ex.check(len(ns) == (1 if hook_set["node_setup_command"] else 0), "C16: node setup command did not run once per batch",
+                         batch=b_, times=len(ns))
+                ex.check(len(nt) == (1 if hook_set["node_teardown_command"] else 0),
+                         "C16: node teardown command did not run once per batch", batch=b_, times=len(nt))
+                for e in ns:
+                    ex.check(e["seq"] < min(l["seq"] for l in ls), "C16: node setup command ran after a job of the batch started")
+                    g_ = grp_of[nm.index(ls[0]["job"])]
+                    ex.check(e["env"].get("JADE_SUBMISSION_GROUP") == "g%d" % g_, "C16: JADE_SUBMISSION_GROUP wrong for a node command",
+                             env=e["env"])
+                for e in nt:
+                    ex.check(e["seq"] > max([x["seq"] for x in exits] + [0]) and {l["job"] for l in ls} <= set(e["results_on_disk"]),
+                             "C16: node teardown command ran before all jobs of the batch ended")
+                    g_ = grp_of[nm.index(ls[0]["job"])]
+                    ex.check(e["env"].get("JADE_SUBMISSION_GROUP") == "g%d" % g_, "C16: JADE_SUBMISSION_GROUP wrong for a node command",
+                             env=e["env"])
+            ex.check(sorted(got) == sorted(nm), "C16: a lifecycle command prevented results from being recorded", got=sorted(got))
         crashes = w.events("crash")
-        ex.check(not crashes or lost, "C05: a JADE process crashed in a fault-free history",
+        ex.check(not crashes or lost, "C05/C16: a JADE process crashed in a fault-free history",
                  crashes=[(c_["argv"][:2], c_["error"]) for c_ in crashes][:3])
         ex.check(obs.reads > 0 or local, "C09: status observer never ran")
         ex.note("histories")
